@@ -571,6 +571,32 @@ Theorem C06_history_lookups_transparent : forall qs s1 s2,
 Proof. exact history_lookups_transparent. Qed.
 Print Assumptions C06_history_lookups_transparent.
 
+(* fts.sort() twice is fts.sort() once; seq.add_fts(new) is the stable position sort of old ++ new (so C06_get_after_sort says what
+   a type-name lookup returns afterwards) *)
+Theorem C06_sort_idempotent_add_fts : forall l fs r,
+  fts_sort [0] false (fts_sort [0] false l) = fts_sort [0] false l /\
+  (build_fts fs = Ok r ->
+   fedit_run l (EAddFts fs) = (true, VNone, fts_sort [0] false (l ++ r)) /\
+   Permutation.Permutation (snd (fedit_run l (EAddFts fs))) (l ++ r)).
+Proof. exact sort_idempotent_add_fts. Qed.
+Print Assumptions C06_sort_idempotent_add_fts.
+
+(* the shape of every in-place edit: sort / reverse re-order; item assignment, swap, changing the type or the locations of a feature
+   keep the number of features; pop / remove take exactly one away unless they raise; insert / append add exactly one; an edit
+   that raises leaves the list as it was *)
+Theorem C06_fedit_shape : forall l e,
+  let r := snd (fedit_run l e) in
+  match e with
+  | ESort _ _ | EReverse => Permutation.Permutation r l
+  | ESetItem _ _ | ESwap _ _ | ESetType _ _ | ESetLocs _ _ => length r = length l
+  | EPop _ | ERemove _ => r = l \/ S (length r) = length l
+  | EInsert _ _ | EAppend _ => r = l \/ length r = S (length l)
+  | EExtend _ | EAddFts _ => (length l <= length r)%nat
+  | EClear => r = []
+  end.
+Proof. exact fedit_shape. Qed.
+Print Assumptions C06_fedit_shape.
+
 (* non-vacuity: two cds, the later one further left: sort() changes the answer of the lookup (the history of seeded change C06-21) *)
 Example C06_witness_sort_changes_lookup :
   let late := mkFt (Some (bs "cds"%bs)) [mkLoc 11 17 S_REVERSE 0] in
